@@ -39,6 +39,7 @@ MDNS = "224.0.0.251"
 QUERIER = "10.9.9.9"
 D11_SIG = "C16:qu-question-double-multicast"
 D11B_SIG = "C16:qu-exempt-query-multicast-path-repeated"
+OWN_QU = "own-qu-probe"   # not a finding: a label for deliveries whose allowed extra unicast answer feeds back into the instance
 
 
 # ------------------------------------------------------------------------------------------
@@ -125,16 +126,25 @@ def gen_history(rng, qu_ok, n_items=None):
 
 def gen_case(seed, idx, qu_ok):
     rng = C.rng_for(seed, "c16", idx, qu_ok)
-    return {
+    case = {
         "seed": seed, "idx": idx, "qu_ok": qu_ok,
         "n_services": rng.choice([1, 1, 2]),
         "browse_own": rng.random() < 0.3,
         "lookup": rng.random() < 0.4,
-        "start": rng.choice([1, 40, 400, 2000, 31000, 1200000, 2000000]),
+        "start": rng.choice([1, 40, 400, 2000, 31000, 100000, 1200000, 2000000]),
+        # PTR/TXT TTL of the registered services (below the 1125 s PTR floor of the cache in two of three cases with a value)
+        "other_ttl": rng.choice([None, None, 60, 300, 4500]),
+        # the socket hands over 4-tuple sources, as an IPv6 socket does
+        "v6_tuple": rng.random() < 0.25,
         "maxdelay": rng.choice([0, 5, 20]),
         "tail": rng.choice([15000, 15000, 130000]),
+        # the second copy of a *response* may arrive later (1..999 ms) as long as nothing else arrives in between
+        "dup_gap": rng.choice([0, 0, 0, 1, 500, 999]),
         "items": [dict(it, data=it["data"].hex(), src=list(it["src"])) for it in gen_history(rng, qu_ok)],
     }
+    if case["dup_gap"]:
+        case["lookup"] = False   # (a lookup's wake-ups tie with arrivals at round instants; the order of same-instant timers is unspecified)
+    return case
 
 
 # ------------------------------------------------------------------------------------------
@@ -216,7 +226,77 @@ def features(data):
             "query": bool(m.is_query()), "tc": bool(m.truncated)}
 
 
-def qu_signature(zc, data, port, now):
+def rkey(r):
+    """identity of a record without TTL / flush bit / creation time"""
+    tok = (C.rec_line(r, created=0) if not isinstance(r, str) else r).split()
+    return " ".join(tok[:4] + tok[7:])
+
+
+def ident(r):
+    """identity of a record, computed here (name and targets lower-cased, no TTL/flush/creation time, no scope id)"""
+    from zeroconf import _dns as d
+
+    if isinstance(r, d.DNSAddress):
+        rd = ("a", bytes(r.address))
+    elif isinstance(r, d.DNSPointer):
+        rd = ("p", r.alias.lower())
+    elif isinstance(r, d.DNSText):
+        rd = ("t", bytes(r.text))
+    elif isinstance(r, d.DNSService):
+        rd = ("s", r.priority, r.weight, r.port, r.server.lower())
+    elif isinstance(r, d.DNSNsec):
+        rd = ("n", r.next_name.lower(), tuple(sorted(r.rdtypes)))
+    elif isinstance(r, d.DNSHinfo):
+        rd = ("h", r.cpu, r.os)
+    else:
+        rd = ("?", repr(r))
+    return (r.name.lower(), r.type, r.class_, rd)
+
+
+def shadow_apply(shadow, data, now):
+    """an arrival history of our own (RFC 6762 section 10 as the record manager applies it): when each record was last
+    heard and with which TTL -- PTR floor 1125 s, goodbyes remove, a cache-flush record makes the other records of its
+    name/type/class that are older than 1 s expire in 1 s.  It decides, independently of the implementation's cache,
+    whether a record "was multicast within a quarter of its TTL"."""
+    from zeroconf import DNSIncoming
+
+    m = DNSIncoming(data)
+    if not m.valid or m.is_query():
+        return
+    answers = m.answers()
+    here = {ident(r) for r in answers}
+    uniq, removes = set(), []
+    for r in answers:
+        ttl = int(r.ttl)
+        if ttl and r.type == 12 and ttl < 1125:
+            ttl = 1125
+        if r.unique:
+            uniq.add((r.name.lower(), r.type, r.class_))
+        k = ident(r)
+        if ttl > 0:
+            shadow[k] = (now, ttl)
+        elif k in shadow:
+            removes.append(k)
+    for k, v in list(shadow.items()):
+        if k[:3] in uniq and k not in here and now - v[0] > 1000:
+            shadow[k] = (now, 1)
+    for k in removes:
+        shadow.pop(k, None)
+
+
+def shadow_recent(shadow, rec, now):
+    v = shadow.get(ident(rec))
+    return v is not None and v[0] + 250 * v[1] > now
+
+
+def downstream_digest(zc):
+    """what a query could have changed downstream: the cache (with creation times), the two answer queues"""
+    cache = sorted(C.rec_line(r, created=int(r.created)) for rs in zc.cache.cache.values() for r in rs)
+    queues = [[[int(g.send_after), int(g.send_before), sorted(rkey(r) for r in g.answers)] for g in q.queue] for q in (zc.out_queue, zc.out_delay_queue)]
+    return {"cache": cache, "queues": queues}
+
+
+def qu_signature(zc, data, port, now, shadow):
     """the D11 signature evaluated on the instance just before the datagram is processed:
     query with a QU question, multicast source, and some answer to a QU question not multicast within TTL/4;
     also reports whether a QM question of the same packet has answers (mixed)"""
@@ -224,7 +304,7 @@ def qu_signature(zc, data, port, now):
     from zeroconf._dns import DNSRRSet
 
     m = DNSIncoming(data, (QUERIER, port), None, now)
-    out = {"qu": False, "qu_not_recent": False, "qm_answers": False, "qu_answers": False, "tc": False}
+    out = {"qu": False, "qu_not_recent": False, "qm_answers": False, "qu_answers": False, "tc": False, "remulticast": [], "recency_mismatch": []}
     # "has a QU question" is decided here from the decoded questions' own top class bit, not from the parser's summary flag
     if not m.valid or not m.is_query() or not any(q.unique for q in m.questions) or not zc.registry.has_entries:
         return out
@@ -238,11 +318,20 @@ def qu_signature(zc, data, port, now):
             if q.unique and port == 5353:
                 for rec in ans:
                     out["qu_answers"] = True
+                    # "not multicast within a quarter of its TTL" is decided from the arrival history kept by the harness,
+                    # *not* from the implementation's cache: a defect that makes the cache forget (wrong TTL on refresh, a
+                    # record stored under another identity) must not move the delivery into the recorded finding's class
                     e = zc.cache.async_get_unique(rec)
-                    if e is None or not e.is_recent(now):
+                    impl_recent = e is not None and e.is_recent(now)
+                    if impl_recent != shadow_recent(shadow, rec, now):
+                        out["recency_mismatch"].append([rkey(rec), impl_recent])
+                    if not shadow_recent(shadow, rec, now):
                         out["qu_not_recent"] = True
+                        out["remulticast"] += [rkey(x) for x in [rec] + list(ans[rec])]   # D11: the record and its additionals
             elif ans:
                 out["qm_answers"] = True
+                for rec in ans:
+                    out["remulticast"] += [rkey(x) for x in [rec] + list(ans[rec])]       # D11b: the multicast-path answers
     return out
 
 
@@ -276,7 +365,7 @@ def simulate(case, dupmask, skip_d11=False):
 
     sim.randint = lib_randint              # picked up by Sim.run's patches
     sim.net_rng = KeyedRng(sim, "net")
-    obs = {"sends": [], "callbacks": [], "lblocks": [], "routes": [], "sigs": {}, "rul_calls": 0, "deliveries": [], "d11": [], "d11sig": {}}
+    obs = {"sends": [], "callbacks": [], "lblocks": [], "routes": [], "sigs": {}, "rul_calls": 0, "deliveries": [], "d11": [], "d11sig": {}, "second_copies": [], "gap_copies": 0, "recency_mismatch": []}
     saved = []
 
     class L(ServiceListener):
@@ -382,6 +471,8 @@ def simulate(case, dupmask, skip_d11=False):
         lst = zc.engine.protocols[0]
         count = {"n": 0}
         orig_deliver = a.deliver
+        pending_copies = []
+        shadow = {}
 
         def deliver_once(data, src):
             if a.transport is None or a.transport.closed:
@@ -391,7 +482,8 @@ def simulate(case, dupmask, skip_d11=False):
             ndraw = len(sim.draws)
             entries = bool(zc.registry.has_entries)
             cur["down"] = []
-            lst.datagram_received(data, src)
+            # an IPv6 socket hands over (address, port, flow, scope id): nothing may depend on the extra two
+            lst.datagram_received(data, (src[0], src[1], 0, 3) if case.get("v6_tuple") else src)
             down, cur["down"] = cur["down"], None
             processed = lst.last_message is not before
             if not processed:
@@ -407,6 +499,9 @@ def simulate(case, dupmask, skip_d11=False):
             tcdraw = [d for d in draws if d[0] == 400 and d[1] == 500] if processed and tag.startswith("deferred:") else []
             obs["lblocks"].append({"op": "recv", "t": sim.now(), "data": data.hex(), "addr": src[0], "port": src[1], "entries": entries,
                                    "tcdraw": tcdraw[0] if tcdraw else None, "tag": tag, "timers": timers_of(lst), "deferred": deferred_of(lst)})
+            if processed and tag == "response":
+                shadow_apply(shadow, data, float(sim.loop.ms))
+            return processed
 
         def deliver(data, src):
             # a delivery is identified by (time, bytes, source, occurrence), not by its position: an allowed extra unicast
@@ -417,18 +512,49 @@ def simulate(case, dupmask, skip_d11=False):
             obs["deliveries"].append(i)
             twice = False
             if dupmask is not None:
-                sg = qu_signature(zc, data, src[1], float(sim.loop.ms))
-                d11 = known_sig(sg) is not None and not sg["tc"]
+                sg = qu_signature(zc, data, src[1], float(sim.loop.ms), shadow)
+                if sg["recency_mismatch"]:
+                    obs["recency_mismatch"].append({"key": i, "t": sim.now(), "records": sg["recency_mismatch"], "data": data.hex()})
+                # a QU query of the instance itself (its looped-back probe): the allowed second unicast answer goes to the
+                # instance -- an arrival the reference run does not have, which refreshes its cache and moves whatever depends
+                # on it (refresh queries of a browser of its own type).  Such deliveries are spared in the main comparison like
+                # the ones matching a finding, and get the local oracle on their second copy in the run that spares nothing.
+                own_qu = sg["qu"] and src[0] == "10.0.0.1" and not sg["tc"]
+                d11 = (known_sig(sg) is not None and not sg["tc"]) or own_qu
                 if d11:
                     obs["d11"].append(i)
-                    obs["d11sig"][i] = known_sig(sg)
+                    obs["d11sig"][i] = known_sig(sg) or OWN_QU
                 twice = ((dupmask == "all" or (isinstance(dupmask, (set, frozenset)) and i in dupmask)) and not (skip_d11 and d11)
                          and sim.now() >= case.get("dup_after", 0))
                 if twice:
                     obs["sigs"][i] = dict(sg, t=sim.now(), data=data.hex(), src=list(src))
-            deliver_once(data, src)
+            n_s, n_c = len(obs["sends"]), len(obs["callbacks"])
+            was_processed = deliver_once(data, src)
             if twice:
+                gap = case.get("dup_gap", 0)
+                # (a copy of a datagram that was itself dropped as a repeat of an older one is not "the same datagram twice":
+                # the window counts from the older one -- `example` in Props/C16.lean -- so only processed datagrams get a late copy)
+                if gap and not cur.get("injecting"):
+                    return   # looped-back traffic of the instance is not given late copies (they would not be delivered in time)
+                if gap and was_processed and not features(data)["query"]:
+                    # a copy that arrives later (real link-layer duplicates do): still "immediate succession on the socket" only
+                    # if nothing else arrived in between -- checked when the copy is due
+                    def late_copy(data=data, src=src, lm=lst.last_message):
+                        if lst.last_message is lm:
+                            obs["gap_copies"] += 1
+                            deliver_once(data, src)
+                    pending_copies.append(late_copy)   # delivered by the scenario itself, `gap` ms later (no extra loop timer)
+                    return
+                first = {"sends": obs["sends"][n_s:], "callbacks": obs["callbacks"][n_c:]}
+                n_s2, n_c2 = len(obs["sends"]), len(obs["callbacks"])
+                before = downstream_digest(zc) if sg["qu"] else None
                 deliver_once(data, src)
+                if sg["qu"]:
+                    after = downstream_digest(zc)
+                    second = {"sends": obs["sends"][n_s2:], "callbacks": obs["callbacks"][n_c2:]}
+                    obs["second_copies"].append({"key": i, "sig": known_sig(sg), "tc": sg["tc"], "qm": sg["qm_answers"], "remulticast": sorted(set(sg["remulticast"])),
+                                                 "first": first, "second": second,
+                                                 "cache_same": before["cache"] == after["cache"], "queues_same": before["queues"] == after["queues"]})
 
         a.deliver = deliver
 
@@ -444,8 +570,9 @@ def simulate(case, dupmask, skip_d11=False):
             def async_update_records_complete(self):
                 pass
 
+        ttl_kw = {} if not case.get("other_ttl") else {"other_ttl": case["other_ttl"]}
         infos = [ServiceInfo(TA, "s%d.%s" % (i + 1, TA), 80 + i, addresses=[socket.inet_aton("10.0.0.1")], server="ha.local.",
-                             properties={"k": "v%d" % i}) for i in range(case["n_services"])]
+                             properties={"k": "v%d" % i}, **ttl_kw) for i in range(case["n_services"])]
         for info in infos:
             t = await zc.async_register_service(info)
             await t
@@ -459,11 +586,21 @@ def simulate(case, dupmask, skip_d11=False):
                 ok = await si.async_request(zc, 3000)
                 obs["callbacks"].append([sim.now(), "lookup", "done", [bool(ok), si.port, sorted(a_.hex() for a_ in si.addresses), si.text.hex() if si.text else None]])
             lookup = asyncio.ensure_future(do_lookup())
-        for it in case["items"]:
-            if it["gap"]:
-                await sim.sleep_ms(it["gap"])
-            a.deliver(bytes.fromhex(it["data"]), tuple(it["src"]))
-        await sim.sleep_ms(case["tail"])
+        dgap = case.get("dup_gap", 0)
+        for it in list(case["items"]) + [{"gap": case["tail"], "data": None}]:
+            wait = it["gap"]
+            if dgap and wait > dgap:   # room for late copies before the next arrival (the reference run sleeps the same way)
+                await sim.sleep_ms(dgap)
+                for f_ in pending_copies:
+                    f_()
+                wait -= dgap
+            del pending_copies[:]
+            if wait:
+                await sim.sleep_ms(wait)
+            if it["data"] is not None:
+                cur["injecting"] = True
+                a.deliver(bytes.fromhex(it["data"]), tuple(it["src"]))
+                cur["injecting"] = False
         if lookup is not None:
             await lookup
         obs["cache"] = sorted(C.rec_line(r, created=int(r.created) - vsim.T0) for rs in zc.cache.cache.values() for r in rs)
@@ -490,14 +627,39 @@ def is_unicast(s):
 
 
 def allowed_keys(dup):
-    """(time, ip, port) of every duplicated delivery that is a query with a QU question: the one place where the
-    property allows something extra -- a unicast answer to that querier at that instant"""
-    return {(sg["t"], sg["src"][0], sg["src"][1]) for sg in dup["sigs"].values() if sg.get("qu")}
+    """(time, ip, port) -> number of duplicated deliveries that are queries with a QU question from there at that instant:
+    the one place where the property allows something extra -- *one* more unicast answer per duplicated query"""
+    out = {}
+    for sg in dup["sigs"].values():
+        if sg.get("qu"):
+            k = (sg["t"], sg["src"][0], sg["src"][1])
+            out[k] = out.get(k, 0) + 1
+    return out
 
 
-def mark(obs, keys):
-    """events for the equivalence predicate: [time, allowed-extra?, digest]"""
-    return [[s[0], is_unicast(s) and (s[0], s[1], s[2]) in keys, C.digest(s)] for s in obs["sends"]]
+def mark(obs, keys, ref=None):
+    """events for the equivalence predicate: [time, allowed-extra?, digest].  An event of the duplicated run may be an
+    allowed extra only if it is unicast to a duplicated QU querier at that instant and the number of extras there does not
+    exceed the number of duplicated queries."""
+    ref_at, n_ref, n_dup = {}, {}, {}
+    for s_ in (ref or obs)["sends"]:
+        if is_unicast(s_):
+            k = (s_[0], s_[1], s_[2])
+            ref_at.setdefault(k, set()).update(s_[3][2] if len(s_[3]) > 2 and isinstance(s_[3][2], list) else [])
+            n_ref[k] = n_ref.get(k, 0) + 1
+    for s_ in obs["sends"]:
+        if is_unicast(s_):
+            k = (s_[0], s_[1], s_[2])
+            n_dup[k] = n_dup.get(k, 0) + 1
+    out = []
+    for s_ in obs["sends"]:
+        k = (s_[0], s_[1], s_[2])
+        # (no test on the content: the first copy of a query is answered together with the truncated packets deferred for its
+        # address -- their questions *and* their known answers --, the second copy alone, so the second answer can carry fewer
+        # records or more than the first; what is bounded is the number: one extra per duplicated query)
+        ok = is_unicast(s_) and k in keys and n_dup.get(k, 0) - n_ref.get(k, 0) <= keys[k]
+        out.append([s_[0], bool(ok), C.digest(s_)])
+    return out
 
 
 def equiv_mod_unicast(ref, dup):
@@ -514,7 +676,7 @@ def equiv_mod_unicast(ref, dup):
 def compare(ref, dup):
     """None when equivalent modulo extra unicast answers to duplicated QU queries, else a short description"""
     keys = allowed_keys(dup)
-    if not equiv_mod_unicast(mark(ref, keys), mark(dup, keys)):
+    if not equiv_mod_unicast(mark(ref, keys), mark(dup, keys, ref)):
         a, b = ref["sends"], dup["sends"]
         extra = [x for x in b if x not in a][:2]
         missing = [x for x in a if x not in b][:2]
@@ -545,7 +707,7 @@ def eq_line(ref, dup):
     def enc(evs):
         return "%d %s" % (len(evs), " ".join("%d %s %s" % (e[0], C.b01(e[1]), e[2]) for e in evs))
 
-    return "c16eq %s %s" % (enc(mark(ref, keys)), enc(mark(dup, keys)))
+    return "c16eq %s %s" % (enc(mark(ref, keys)), enc(mark(dup, keys, ref)))
 
 
 def model_lines(obs):
@@ -620,11 +782,48 @@ def classify(case, ref, skip_d11):
     f = features(bytes.fromhex(sg["data"])) if "data" in sg else {}
     if known_sig(sg) is not None:
         return known_sig(sg), sg
+    if sg.get("qu") and sg.get("src", [""])[0] == "10.0.0.1":
+        return OWN_QU, sg
     if sg.get("qu"):
         return "C16:qu-query-duplicate-changes-more-than-unicast", sg
     if f.get("qu"):
         return "C16:qu-bit-non-query-duplicate", sg
     return "C16:non-qu-duplicate-changes-behaviour", sg
+
+
+def second_copy_findings(obs):
+    """the property's exception, checked where it applies: on the second copy of every duplicated QU query (those matching
+    a recorded finding included).  Allowed: at most one unicast datagram, to the querier, with nothing the first copy did not
+    send; no callback; downstream state as the first copy left it.  Under a recorded finding, additionally: multicast of
+    exactly the records the finding predicts (D11/D11b) and, for D11b, the answer queues may differ."""
+    bad = []
+    for sc in obs["second_copies"]:
+        if sc["tc"]:
+            allowed_mc = set()
+        else:
+            allowed_mc = set(sc["remulticast"]) if sc["sig"] else set()
+        uni = [x for x in sc["second"]["sends"] if is_unicast(x)]
+        mc = [x for x in sc["second"]["sends"] if not is_unicast(x)]
+        first_uni = set()
+        for x in sc["first"]["sends"]:
+            if is_unicast(x) and len(x[3]) > 2:
+                first_uni |= set(x[3][2])
+        where = {"delivery": sc["key"], "finding": sc["sig"]}
+        if sc["second"]["callbacks"]:
+            bad.append(("C16:second-copy-fires-callbacks", "the second copy of a QU query fired %d callbacks" % len(sc["second"]["callbacks"]), where))
+        n_first_uni = sum(1 for x in sc["first"]["sends"] if is_unicast(x))
+        if len(uni) > max(1, n_first_uni):
+            bad.append(("C16:second-copy-unicast-not-a-repeat", "the second copy of a QU query was answered by %d unicast datagrams (the first by %d)" % (len(uni), n_first_uni), where))
+        extra_mc = [k for x in mc if len(x[3]) > 2 for k in x[3][2] if rkey(k) not in allowed_mc]
+        if mc and not sc["sig"] and not sc["tc"]:
+            bad.append(("C16:second-copy-multicasts", "the second copy of a QU query whose answers were all heard within a quarter of their TTL was answered by multicast again", where))
+        if extra_mc and sc["sig"]:
+            bad.append(("C16:second-copy-multicasts-unpredicted-records", "under %s the second copy multicast %d records the finding does not predict" % (sc["sig"], len(extra_mc)), where))
+        if not sc["cache_same"]:
+            bad.append(("C16:second-copy-changes-cache", "answering the second copy of a QU query changed the cache (QueryRepeatNeutral fails on the real handler)", where))
+        if not sc["queues_same"] and not sc["qm"]:
+            bad.append(("C16:second-copy-changes-queues", "answering the second copy of a QU query changed the answer queues although no recorded finding applies", where))
+    return bad
 
 
 def shrink(case, sg):
@@ -652,6 +851,16 @@ def run_case(res, case, ctx, lines_acc):
     res.nontriv("case/%s/%d/%d/%s" % (case["qu_ok"], min(nsupp, 30), len(ref["sends"]), len(ref["callbacks"]) > 0))
     diff = compare(ref, dup)
     lines_acc.append((case, ref, dup, diff))
+    for sig_, what_, where_ in second_copy_findings(dup):
+        violate_limited(res, sig_, what_, {"case": case, "where": where_})
+    res.count("second-copies-of-QU-queries-checked", len(dup["second_copies"]))
+    for mm in dup["recency_mismatch"][:1]:
+        res.disagree("c16recent", {"case": case, "delivery": mm}, "the cache's quarter-TTL test on %s" % mm["records"][:2],
+                     "the arrival history kept by the harness says the opposite")
+    self_extra = any(is_unicast(x) and x[1] == "10.0.0.1" for x in dup["sends"]) and len(dup["sends"]) != len(ref["sends"])
+    if diff is None and not self_extra and ref["rul_calls"] != dup["rul_calls"]:
+        violate_limited(res, "C16:record-update-listener-calls-differ", "RecordUpdateListener.async_update_records was called %d times in the reference run, %d times with duplicates"
+                        % (ref["rul_calls"], dup["rul_calls"]), {"case": case})
     if diff is not None:
         res.count("paired-runs-that-differ")
         if res.dist["paired-runs-that-differ"] <= 8:   # naming the culprit costs one run per delivery: do it for the first few
@@ -663,30 +872,41 @@ def run_case(res, case, ctx, lines_acc):
             violate_limited(res, "C16:duplicates-change-behaviour:unclassified", "duplicated delivery changes the externally visible behaviour: " + diff["what"],
                             {"case": case, "diff": diff, "culprit": None})
     elif ref.get("cache") != dup.get("cache"):
-        # not an observation of the property: an allowed extra unicast answer to the instance's own looped-back
-        # probe is received by the instance itself and refreshes `created` of its cached copies
+        # the handler-level fact (the second copy of a QU query leaves cache and queues alone) is checked where it applies, in
+        # `second_copy_findings`.  The caches of two equivalent runs can still differ for one reason: an allowed extra unicast
+        # answer to the instance's *own* looped-back probe is delivered to the instance itself -- one more arrival, which
+        # refreshes `created` of its cached copies.  Anything else is a disagreement with the model.
         res.count("cache-differs-after-equivalent-runs")
+        if not self_extra:
+            res.disagree("c16state", {"case": case}, "final cache differs although no extra unicast answer went to the instance itself", "equal")
     if dup["d11"]:
         res.count("runs-with-deliveries-matching-a-known-finding")
-    if dup["d11"] and (res.dist.get("violations:" + D11_SIG, 0) < 3 or res.dist.get("violations:" + D11B_SIG, 0) < 3):
-        # confirm the recorded findings on a few cases (every delivery duplicated, none spared)
+    if dup["d11"]:
+        # every delivery duplicated, none spared: the deliveries matching a recorded finding get the local oracle on their
+        # second copy (so a new defect there is not filed under the finding); the global difference they cause is classified
         full = simulate(case, "all")
+        for sig_, what_, where_ in second_copy_findings(full):
+            violate_limited(res, sig_, what_, {"case": case, "where": where_, "run": "every delivery duplicated"})
+        res.count("second-copies-under-a-finding-checked", sum(1 for x in full["second_copies"] if x["sig"]))
         d2 = compare(ref, full)
-        if d2 is not None and diff is None:
+        if d2 is not None and diff is None and (res.dist.get("violations:" + D11_SIG, 0) < 3 or res.dist.get("violations:" + D11B_SIG, 0) < 3):
             sig, sg = classify(case, ref, False)
             if sig.endswith("no-single-culprit"):
                 # the main run (everything duplicated except deliveries matching a recorded finding) was equivalent, so the
                 # difference needs several of those deliveries together: attribute it by duplicating them alone, per finding
-                by = {k: {i for i, v in dup["d11sig"].items() if v == k} for k in (D11B_SIG, D11_SIG)}
-                for k in (D11B_SIG, D11_SIG):
+                by = {k: {i for i, v in dup["d11sig"].items() if v == k} for k in (D11B_SIG, D11_SIG, OWN_QU)}
+                for k in (D11B_SIG, D11_SIG, OWN_QU):
                     if by[k] and compare(ref, simulate(case, by[k])) is not None:
                         sig = k
                         break
                 else:
-                    if compare(ref, simulate(case, by[D11B_SIG] | by[D11_SIG])) is not None:
-                        sig = D11B_SIG if by[D11B_SIG] else D11_SIG
+                    if compare(ref, simulate(case, by[D11B_SIG] | by[D11_SIG] | by[OWN_QU])) is not None:
+                        sig = D11B_SIG if by[D11B_SIG] else (D11_SIG if by[D11_SIG] else OWN_QU)
             what = WHAT.get(sig, "duplicated delivery changes the externally visible behaviour: " + d2["what"])
-            violate_limited(res, sig, what, {"case": case, "diff": d2, "culprit": sg})
+            if sig == OWN_QU:
+                res.count("runs-that-differ-only-through-an-extra-unicast-answer-to-the-instance-itself")
+            else:
+                violate_limited(res, sig, what, {"case": case, "diff": d2, "culprit": sg})
     return diff
 
 
@@ -711,7 +931,7 @@ def flush_model(res, ctx, acc):
         if which == "eq":
             ref, dup, diff = obs
             keys = allowed_keys(dup)
-            py = equiv_mod_unicast(mark(ref, keys), mark(dup, keys))
+            py = equiv_mod_unicast(mark(ref, keys), mark(dup, keys, ref))
             if out[a] != C.b01(py):
                 res.disagree("c16eq", {"case": case}, C.b01(py), out[a])
         else:
